@@ -306,4 +306,180 @@ example : evalAgg ⟨.sum, .col 0, true⟩ [[.int 2], [.null], [.int 2], [.int 5
     evalAgg ⟨.count, .col 0, false⟩ [[.int 5], [.int 2], [.int 2], [.null]] = .ok (.int 3) := by
   refine ⟨rfl, rfl, rfl⟩
 
+/-! ### `x IN (v₁, …, vₙ)` is the Kleene disjunction of the equalities -/
+
+/-- truth value of `a = v` -/
+def eqTV (a v : Value) : TV :=
+  if a.isNull || v.isNull then u else if a = v then t else f
+
+/-- SQL's definition: `x IN (v₁ … vₙ)` ≡ `x = v₁ OR … OR x = vₙ` -/
+def inSpec (a : Value) : List Value → TV
+  | [] => f
+  | v :: vs => or3 (eqTV a v) (inSpec a vs)
+
+/-- every list element is NULL or comparable with the probe -/
+def listComparable (a : Value) (vs : List Value) : Prop :=
+  ∀ v ∈ vs, v.isNull = true ∨ (Value.cmp? a v).isSome
+
+theorem evalBin_eq_comparable (a v : Value) (ha : a.isNull = false) (hv : v.isNull = false)
+    (hc : (Value.cmp? a v).isSome) : evalBin .eq a v = .ok (.bool (decide (a = v))) := by
+  cases a <;> cases v <;> simp [Value.isNull, Value.cmp?] at ha hv hc
+  · rename_i x y
+    simp only [evalBin, Value.cmp?, cmpOp]
+    by_cases h : x = y
+    · subst h; simp
+    · have : compare x y ≠ .eq := fun hc => h (Std.compare_eq_iff_eq.mp hc)
+      cases hcmp : compare x y <;> simp_all
+  · rename_i x y
+    simp only [evalBin, Value.cmp?, cmpOp]
+    by_cases h : x = y
+    · subst h; simp
+    · have : compare x y ≠ .eq := fun hc => h (Std.compare_eq_iff_eq.mp hc)
+      cases hcmp : compare x y <;> simp_all
+  · rename_i x y
+    cases x <;> cases y <;> rfl
+
+theorem inListV_go (a : Value) (ha : a.isNull = false) (neg : Bool) (vs : List Value)
+    (hc : listComparable a vs) (foundNull : Bool) :
+    inListV.go a neg vs foundNull
+      = .ok (Value.ofTV (let r := or3 (inSpec a vs) (if foundNull then u else f)
+                          if neg then not3 r else r)) := by
+  induction vs generalizing foundNull with
+  | nil => cases foundNull <;> cases neg <;> rfl
+  | cons v vs ih =>
+    have hc' : listComparable a vs := fun w hw => hc w (List.mem_cons_of_mem _ hw)
+    by_cases hv : v.isNull = true
+    · simp only [inListV.go, hv, if_true, ih hc', inSpec, eqTV, Bool.or_true]
+      cases inSpec a vs <;> cases foundNull <;> cases neg <;> rfl
+    · have hv' : v.isNull = false := by simpa using hv
+      have hcv := (hc v List.mem_cons_self).resolve_left hv
+      simp only [inListV.go, hv', Bool.false_eq_true, if_false, evalBin_eq_comparable a v ha hv' hcv, inSpec, eqTV, ha, Bool.or_self]
+      by_cases he : a = v
+      · simp only [he, decide_true, if_true]
+        cases inSpec v vs <;> cases foundNull <;> cases neg <;> rfl
+      · simp only [he, decide_false, if_false, ih hc']
+        cases inSpec a vs <;> cases foundNull <;> cases neg <;> rfl
+
+/-- the evaluator's IN list (as coded: early exit, `found_null` flag, empty-list shortcut) computes
+SQL's three-valued `x IN (…)` / `x NOT IN (…)` for every list length -/
+theorem C01_in_list_is_kleene_or (a : Value) (vs : List Value) (neg : Bool) (hc : listComparable a vs) :
+    inListV a vs neg = .ok (Value.ofTV (if neg then not3 (inSpec a vs) else inSpec a vs)) := by
+  unfold inListV
+  by_cases he : vs = []
+  · subst he; cases neg <;> rfl
+  · have : vs.isEmpty = false := by cases vs <;> simp_all
+    simp only [this, Bool.false_eq_true, if_false]
+    by_cases ha : a.isNull = true
+    · simp only [ha, if_true]
+      -- a NULL probe against a non-empty list: every equality is UNKNOWN
+      have hs : ∀ l : List Value, l ≠ [] → inSpec a l = u := by
+        intro l hl
+        induction l with
+        | nil => exact absurd rfl hl
+        | cons w ws ih =>
+          simp only [inSpec, eqTV, ha, Bool.true_or, if_true]
+          cases ws with
+          | nil => rfl
+          | cons x xs => rw [ih (by simp)]; rfl
+      rw [hs vs he]; cases neg <;> rfl
+    · have ha' : a.isNull = false := by simpa using ha
+      simp only [ha', Bool.false_eq_true, if_false]
+      rw [inListV_go a ha' neg vs hc false]
+      simp only [Bool.false_eq_true, if_false]
+      cases inSpec a vs <;> cases neg <;> rfl
+
+/-- non-vacuity: a list longer than the engine's small-list threshold with a NULL element -/
+example : inListV (.int 40) [.int 10, .int 20, .null, .int 30] true = .ok .null ∧
+    inSpec (.int 40) [.int 10, .int 20, .null, .int 30] = u ∧
+    listComparable (.int 40) [.int 10, .int 20, .null, .int 30] := by
+  refine ⟨rfl, rfl, ?_⟩
+  intro v hv; simp at hv
+  rcases hv with rfl | rfl | rfl | rfl <;> simp [Value.isNull, Value.cmp?]
+
+/-! ### BETWEEN (as coded, with the reversed-bounds shortcut) is the conjunction of two comparisons -/
+
+def isIntOrNull : Value → Prop
+  | .null => True
+  | .int _ => True
+  | _ => False
+
+theorem cmp_int (a b : Int) : compare a b = if a < b then .lt else if a = b then .eq else .gt := by
+  simp [compare, compareOfLessAndEq]
+
+theorem cmp_int_gt (a b : Int) : (compare a b == .gt) = decide (a > b) := by
+  rw [cmp_int]
+  by_cases h1 : a < b
+  · have : ¬ a > b := by omega
+    simp [h1, this]
+  · by_cases h2 : a = b
+    · subst h2; simp
+    · have : a > b := by omega
+      simp [h1, h2, this]
+
+theorem cmp_int_ge (a b : Int) : (compare a b != .lt) = decide (a ≥ b) := by
+  rw [cmp_int]
+  by_cases h1 : a < b
+  · have : ¬ a ≥ b := by omega
+    simp [h1, this]
+  · by_cases h2 : a = b
+    · subst h2; simp
+    · have : a ≥ b := by omega
+      simp [h1, h2, this]
+
+theorem cmp_int_le (a b : Int) : (compare a b != .gt) = decide (a ≤ b) := by
+  rw [cmp_int]
+  by_cases h1 : a < b
+  · have : a ≤ b := by omega
+    simp [h1, this]
+  · by_cases h2 : a = b
+    · subst h2; simp
+    · have : ¬ a ≤ b := by omega
+      simp [h1, h2, this]
+
+theorem cmp_int_lt (a b : Int) : (compare a b == .lt) = decide (a < b) := by
+  rw [cmp_int]
+  by_cases h1 : a < b
+  · have : a < b := by omega
+    simp [h1, this]
+  · by_cases h2 : a = b
+    · subst h2; simp
+    · have : ¬ a < b := by omega
+      simp [h1, h2, this]
+
+theorem between_ints (a b c : Int) :
+    betweenV (.int a) (.int b) (.int c) false
+        = (do let p ← evalBin .ge (.int a) (.int b); let q ← evalBin .le (.int a) (.int c); evalBin .and p q) ∧
+    betweenV (.int a) (.int b) (.int c) true
+        = (do let p ← evalBin .lt (.int a) (.int b); let q ← evalBin .gt (.int a) (.int c); evalBin .or p q) := by
+  simp only [betweenV, evalBin, Value.cmp?, cmpOp, bind, Except.bind, pure, Except.pure,
+    Value.isNull, cmp_int_gt, cmp_int_ge, cmp_int_le, cmp_int_lt]
+  by_cases h1 : b > c <;> by_cases h2 : a ≥ b <;> by_cases h3 : a ≤ c <;> by_cases h4 : a < b <;> by_cases h5 : a > c <;>
+    first
+    | (exfalso; omega)
+    | simp [h1, h2, h3, h4, h5, Value.toTV, Value.ofTV, and3, or3]
+
+/-- `x BETWEEN lo AND hi` ≡ `x >= lo AND x <= hi` and `x NOT BETWEEN lo AND hi` ≡ `x < lo OR x > hi`
+under three-valued logic, for all INTEGER / NULL operands — including reversed bounds, where the
+code takes a shortcut -/
+theorem C01_between_is_conjunction (x lo hi : Value) (hx : isIntOrNull x) (hl : isIntOrNull lo) (hh : isIntOrNull hi) :
+    betweenV x lo hi false = (do let a ← evalBin .ge x lo; let b ← evalBin .le x hi; evalBin .and a b) ∧
+    betweenV x lo hi true = (do let a ← evalBin .lt x lo; let b ← evalBin .gt x hi; evalBin .or a b) := by
+  cases x <;> cases lo <;> cases hi <;> simp only [isIntOrNull] at hx hl hh
+  case int.int.int a b c => exact between_ints a b c
+  all_goals
+    simp only [betweenV, evalBin, Value.cmp?, cmpOp, bind, Except.bind, pure, Except.pure,
+      Value.isNull, Value.toTV, Value.ofTV, cmp_int_gt, cmp_int_ge, cmp_int_le, cmp_int_lt]
+  all_goals first
+    | (constructor <;> rfl)
+    | (rename_i a b
+       by_cases h1 : a > b <;> by_cases h2 : a ≥ b <;> by_cases h3 : a ≤ b <;> by_cases h4 : a < b <;>
+        first
+        | (exfalso; omega)
+        | simp [h1, h2, h3, h4, Value.toTV, Value.ofTV, and3, or3])
+
+/-- non-vacuity: reversed bounds and a NULL operand -/
+example : betweenV (.int 5) (.int 9) (.int 1) false = .ok (.bool false) ∧
+    betweenV .null (.int 9) (.int 1) true = .ok .null ∧ betweenV (.int 5) .null (.int 9) false = .ok .null := by
+  refine ⟨rfl, rfl, rfl⟩
+
 end VibeProof.C01
